@@ -1,4 +1,5 @@
 use crate::report::{Ctx, Report, Spec};
+pub mod c16;
 pub mod c18;
 pub mod selftest;
 pub mod wire;
@@ -7,6 +8,7 @@ pub fn dispatch(ctx: &Ctx) -> Option<(Spec, Report)> {
     Some(match ctx.id.as_str() {
         "C01" => wire::run(ctx, 1),
         "C02" => wire::run(ctx, 2),
+        "C16" => c16::run(ctx),
         "C18" => c18::run(ctx),
         "SELFTEST" => selftest::run(ctx),
         _ => return None,
